@@ -20,6 +20,7 @@ import (
 func overlayFor(repo string, extra map[string]string) (string, error) {
 	repl := map[string]string{}
 	repl[filepath.Join(repo, "zz_verif.go")] = filepath.Join(verifDir, "harness/cli/zz_verif.go")
+	repl[filepath.Join(repo, "zz_verif_fsm.go")] = filepath.Join(verifDir, "harness/cli/zz_verif_fsm.go")
 	for _, pkg := range []string{"worker", "ref", "vsched"} {
 		dir := filepath.Join(verifDir, "harness", pkg)
 		ents, err := os.ReadDir(dir)
@@ -48,20 +49,35 @@ func buildWorker(repo string, race bool, extra map[string]string, tag string) (s
 	}
 	defer os.Remove(ov)
 	out := filepath.Join(buildDir, fmt.Sprintf("worker-%s-%d", tag, os.Getpid()))
-	args := []string{"build", "-tags", "verif", "-overlay", ov, "-o", out}
-	if race {
-		args = append(args, "-race")
+	// Level 1: everything, including the layers that read the library's internal automaton / lexer API
+	// (tag verifstruct). Level 2 (fallback when level 1 does not compile, e.g. after an internal refactoring of
+	// the library): without those layers - the concrete, behavioural checks still run.
+	var firstErr string
+	for _, tags := range []string{"verif verifstruct", "verif"} {
+		args := []string{"build", "-tags", tags, "-overlay", ov, "-o", out}
+		if race {
+			args = append(args, "-race")
+		}
+		args = append(args, "./internal/zverif/worker")
+		cmd := exec.Command("go", args...)
+		cmd.Dir = repo
+		var buf bytes.Buffer
+		cmd.Stdout, cmd.Stderr = &buf, &buf
+		if err := cmd.Run(); err == nil {
+			if firstErr != "" {
+				fmt.Printf("NOTE: the structural layers are disabled for this run (the full harness does not build against this tree: %s)\n", firstLine(firstErr))
+				reducedBuild = true
+			}
+			return out, nil
+		} else if firstErr == "" {
+			firstErr = strings.TrimSpace(buf.String())
+		}
 	}
-	args = append(args, "./internal/zverif/worker")
-	cmd := exec.Command("go", args...)
-	cmd.Dir = repo
-	var buf bytes.Buffer
-	cmd.Stdout, cmd.Stderr = &buf, &buf
-	if err := cmd.Run(); err != nil {
-		return "", fmt.Errorf("worker build failed: %v\n%s", err, buf.String())
-	}
-	return out, nil
+	return "", fmt.Errorf("worker build failed:\n%s", firstErr)
 }
+
+// reducedBuild: the worker of this run was built without the verifstruct layers
+var reducedBuild bool
 
 func cmdSetup() int {
 	t0 := time.Now()
